@@ -6,6 +6,7 @@ package kit
 
 import (
 	"fmt"
+	"runtime/debug"
 	"sort"
 	"strings"
 	"sync"
@@ -392,22 +393,55 @@ func (e *Env) Write(db, rp string, pts ...imodels.Point) error {
 
 // ---------------------------------------------------------------- bubbles
 
+// BubbleHorizon is the virtual time after which a bubble whose body has not returned is declared hung.
+// Without it a body blocked forever next to a periodic timer (a task's throughput ticker, say) would make
+// synctest advance the virtual clock without end.
+var BubbleHorizon = 6 * time.Hour
+
 // Bubble runs f inside a synctest bubble (virtual time, quiescence detection).
-// It returns leak != "" if goroutines were still blocked when f returned, and
-// pan != nil if f panicked.
+// It returns leak != "" if goroutines were still blocked when f returned (or f itself was still blocked
+// after BubbleHorizon of virtual time: leak then starts with "hang:"), and pan != nil if f panicked.
 func Bubble(t *testing.T, f func()) (leak string, pan any) {
+	hung := false
 	defer func() {
 		if r := recover(); r != nil {
 			s := fmt.Sprint(r)
 			if strings.Contains(s, "deadlock: main bubble goroutine has exited") {
 				leak = s
+				if hung {
+					leak = fmt.Sprintf("hang: the body was still blocked after %v of virtual time (%s)", BubbleHorizon, s)
+				}
 				return
 			}
 			pan = r
 		}
 	}()
 	synctest.Test(t, func(t *testing.T) {
-		f()
+		type res struct {
+			p     any
+			stack string
+		}
+		done := make(chan res, 1)
+		go func() {
+			defer func() {
+				if r := recover(); r != nil {
+					done <- res{r, string(debug.Stack())}
+					return
+				}
+				done <- res{}
+			}()
+			f()
+		}()
+		tm := time.NewTimer(BubbleHorizon)
+		select {
+		case r := <-done:
+			tm.Stop()
+			if r.p != nil {
+				panic(fmt.Sprintf("%v\n%s", r.p, r.stack))
+			}
+		case <-tm.C:
+			hung = true
+		}
 	})
 	return
 }
